@@ -190,6 +190,11 @@ func Doubling(r *fw.Rand) string {
 			"func zf() { `{z}{z}` }; func ze() { zf() }; while 1 { ze() }",
 		})
 	}
+	if r.P(1, 12) {
+		// modifier counts far beyond the number of dice
+		huge := []int64{1000000000, 100000000000, 4611686018427387904, 9223372036854775807, 30001}[r.Intn(5)]
+		return fmt.Sprintf("%s%s%d", r.Pick([]string{"2d6", "3d20", "10d1", "d6", "2d"}), r.Pick([]string{"k", "kh", "kl", "q", "dl", "dh", "min", "max"}), huge)
+	}
 	switch r.Intn(12) {
 	case 0:
 		return "x='ab'; i=0; while i < 60 { x = x + x; i = i + 1 }; 1"
